@@ -4,7 +4,7 @@
    Model/SaveState.v (Collada.save / write at the granularity of the root's children). *)
 From Coq Require Import List Bool Arith NArith.
 From PC Require Import Base.Atoms Base.Outcome Model.Indent Proofs.Indent Model.SaveState Proofs.SaveState.
-From PC Require Import Model.Purity Proofs.Purity Proofs.SaveQueries.
+From PC Require Import Model.Purity Proofs.Purity Proofs.SaveQueries Proofs.WriteBytes.
 Import ListNotations.
 
 (* ---- xmlutil.indent *)
@@ -162,6 +162,57 @@ Section C03_queries.
 End C03_queries.
 Print Assumptions C03_saves_and_queries.
 
+(* ---- bytes: Indent composed with SaveState (Proofs/WriteBytes.v).
+   Concrete documents carry their whitespace; write = save, xmlutil.indent on the root,
+   serialisation.  Hypotheses: the concrete indent is Indent.indent on the skeleton and keeps
+   the content; content atoms stand for everything but the whitespace indent may rewrite (this
+   is how the harness computes them: canon() in harness/impl/c03.py); the concrete save is
+   simulated by save_in on the content. *)
+Section C03_bytes.
+  Variable ctree : Type.
+  Variable content : ctree -> list rchild.
+  Variable skel : ctree -> wtree.
+  Variable windent : ctree -> ctree.
+  Variable serw : wtree -> list N.
+  Variable csave : faults -> model -> ctree -> (model * ctree) * outcome unit.
+  Hypothesis skel_windent : forall T, skel (windent T) = indent 0 (skel T).
+  Hypothesis content_windent : forall T, content (windent T) = content T.
+  Hypothesis content_strip : forall T1 T2, content T1 = content T2 -> strip 0 (skel T1) = strip 0 (skel T2).
+  Hypothesis csave_sim : forall fc m T,
+    save_in fc (St m (content T)) =
+    (St (fst (fst (csave fc m T))) (content (snd (fst (csave fc m T)))), snd (csave fc m T)).
+
+  (* the bytes of a write are the serialisation of the indented skeleton of the saved tree *)
+  Theorem C03_bytes_of_write : forall cs cs1,
+    csave no_fault (fst cs) (snd cs) = (cs1, Ok tt) ->
+    chealthy_bytes ctree skel windent serw csave cs = Some (serw (indent 0 (skel (snd cs1)))).
+  Proof. exact (bytes_of_write ctree skel windent serw csave skel_windent). Qed.
+
+  (* C03_write_after_failures about bytes, through C03_indent_canonical *)
+  Theorem C03_write_after_failures_bytes : forall cs es,
+    wf_libs (fst cs) -> single_asset (content (snd cs)) -> healthy (fst cs) ->
+    chealthy_bytes ctree skel windent serw csave (crun_events ctree skel windent serw csave cs es) =
+    chealthy_bytes ctree skel windent serw csave cs /\
+    view (fst (crun_events ctree skel windent serw csave cs es)) = view (fst cs).
+  Proof.
+    exact (cwrite_after_failures ctree content skel windent serw csave skel_windent content_windent
+             content_strip csave_sim).
+  Qed.
+
+  (* writing again without an edit: identical bytes, although the tree's whitespace has changed *)
+  Theorem C03_write_twice_bytes : forall cs,
+    wf_libs (fst cs) -> single_asset (content (snd cs)) -> healthy (fst cs) ->
+    chealthy_bytes ctree skel windent serw csave
+      (fst (fst (cwrite_in ctree skel windent serw csave no_fault (DSink None []) cs))) =
+    chealthy_bytes ctree skel windent serw csave cs.
+  Proof.
+    exact (cwrite_twice ctree content skel windent serw csave skel_windent content_windent content_strip csave_sim).
+  Qed.
+End C03_bytes.
+Print Assumptions C03_bytes_of_write.
+Print Assumptions C03_write_after_failures_bytes.
+Print Assumptions C03_write_twice_bytes.
+
 (* ---- non-vacuity *)
 
 (* a whitespace skeleton with every slot class, blank leaf text, text in a tail, three levels *)
@@ -315,4 +366,23 @@ Proof.
     as (V & O & S & _).
   cbv zeta. split; [apply S; discriminate|]. split; [reflexivity|].
   split; [vm_compute; intro X; discriminate X|]. split; [exact O|]. split; [vm_compute; intro X; discriminate X|exact V].
+Qed.
+
+(* the byte-level hypotheses are satisfiable (instance of Proofs/WriteBytes.v: a document is its
+   content plus "indented since the last save"): on ex_state the history leaves the document
+   indented where the untouched one is not, the bytes are there, and they agree *)
+Example C03_bytes_nonvacuous :
+  let es := [EWrite (fail_cam 3) (DPath None); EWrite no_fault (DSink (Some 5%nat) []); ESave bad_scene;
+             EWrite no_fault (DSink None [])] in
+  let cs : cstate i_ctree := (ex_model, (ex_tree0, false)) in
+  let hb := chealthy_bytes i_ctree i_skel i_windent i_serw i_csave in
+  let cs' := crun_events i_ctree i_skel i_windent i_serw i_csave cs es in
+  hb cs' = hb cs /\ hb cs <> None /\ snd (snd cs') = true /\ snd (snd cs) = false /\
+  i_skel (snd cs') <> cskel (fst (snd cs')).
+Proof.
+  destruct C03_hypotheses_met as (WL & SA & HH).
+  cbv zeta. split.
+  - exact (proj1 (C03_write_after_failures_bytes i_ctree i_content i_skel i_windent i_serw i_csave
+             i_skel_windent i_content_windent i_content_strip i_csave_sim (ex_model, (ex_tree0, false)) _ WL SA HH)).
+  - vm_compute. repeat split; try reflexivity; intro X; discriminate X.
 Qed.
